@@ -131,6 +131,7 @@ InPlaceEdit(o) ==
 
 \* reset_parameters(): back to the identity, buffers dropped
 Reset(o) ==
+    /\ Kind # "SEQ"                                  \* composites have no parameters of their own
     /\ Room /\ o \in alive /\ holder[o] \in {"param", "tensor", "callable"} /\ Sharers(o) = {}
     /\ (holder[o] = "callable" => ~Linked(o))       \* resetting p in place would be visible through aliases
     /\ IF holder[o] = "callable"
@@ -198,6 +199,7 @@ Inverse(o, lnk, ub) ==
 
 \* t.data(new tensor) -> copy with other parameters
 DataCopy(o) ==
+    /\ Kind # "SEQ"
     /\ Room /\ CanCreate /\ o \in alive /\ holder[o] \in {"param", "tensor", "callable"}
     /\ LET n == FreshObj IN
        /\ alive' = alive \cup {n}
